@@ -224,7 +224,18 @@ class Src:
         return None
 
     def const(self, cname, key):
-        return self.value(cname, self.attr_node(cname, key))
+        """class attribute `key` of cname; a class-body expression is evaluated in the class that DEFINES it (Python evaluates
+        it once, at class creation), so names inside it do not see overrides of subclasses"""
+        for c in self.chain(cname):
+            for st in self.classes[c][0].body:
+                tgt = val = None
+                if isinstance(st, ast.Assign) and len(st.targets) == 1 and isinstance(st.targets[0], ast.Name):
+                    tgt, val = st.targets[0].id, st.value
+                elif isinstance(st, ast.AnnAssign) and isinstance(st.target, ast.Name) and st.value is not None:
+                    tgt, val = st.target.id, st.value
+                if tgt == key:
+                    return self.value(c, val)
+        return None
 
     def method(self, cname, meth, start_after=None):
         """(FunctionDef, defining class) of `meth` for cname, searching the base chain (optionally after class `start_after`)."""
@@ -417,7 +428,9 @@ def gen_AhabConsts():
          "structure Layout where", "  fmt : String", "  intWidths : List Nat", "  strFields : List (Nat × Nat)", "  size : Nat",
          "  packArgs : List String", "  deriving Repr, DecidableEq", "",
          "/-- a range record of a verify() function: name, the expression fed in, lower and upper bound -/",
-         "structure RangeRec where", "  name : String", "  value : String", "  lo : Int", "  hi : Int", "  deriving Repr, DecidableEq", "",
+         "structure RangeRec where", "  name : String", "  value : String", "  lo : Int", "  hi : Int",
+         "  viaCheckRange : Bool   -- add_record_bit_range (uses misc.check_range) vs add_record_range (plain comparisons)",
+         "  deriving Repr, DecidableEq", "",
          "structure Chip where", "  family : String", "  revision : String", "  resolved : String", "  containersMax : Nat",
          "  imagesMax : Nat", "  minOffsetAlign : Nat", "  imageSizeAlign : Nat", "  containerTypes : List Nat",
          "  allowEmptyHash : Bool", "  coreIds : List (Nat × String)", "  imageTypes : List (String × List (Nat × String))",
@@ -548,7 +561,7 @@ def gen_AhabConsts():
             val = r["value"] if r["kind"] == "bits" or isinstance(r["max"], int) else r["value"] + "≤" + str(r["max"])
             if r["kind"] == "range" and not isinstance(r["min"], int):
                 val = str(r["min"]) + "≤" + val
-            rows.append(f"⟨{lstr(r['name'])}, {lstr(val)}, ({lo} : Int), ({hi} : Int)⟩")
+            rows.append(f"⟨{lstr(r['name'])}, {lstr(val)}, ({lo} : Int), ({hi} : Int), {'true' if r['kind'] == 'bits' else 'false'}⟩")
         o.append(f"def {lean} : List RangeRec := [" + ", ".join(rows) + "]")
     o.append("")
     # ---- translated functions
